@@ -90,6 +90,8 @@ impl WalIndex {
         fs::write(&tmp_path, &bytes)?;
         fs::File::open(&tmp_path)?.sync_all()?;
         #[cfg(walrus_verif)]
+        crate::wal::verif_hooks::trace(|| "idxsync".to_string());
+        #[cfg(walrus_verif)]
         if crate::wal::verif_hooks::io_event(crate::wal::verif_hooks::IO_INDEX_RENAME) {
             return Err(std::io::Error::new(
                 std::io::ErrorKind::Other,
@@ -97,6 +99,8 @@ impl WalIndex {
             ));
         }
         fs::rename(&tmp_path, &self.path)?;
+        #[cfg(walrus_verif)]
+        crate::wal::verif_hooks::trace(|| "idxrename".to_string());
         Ok(())
     }
 }
